@@ -120,4 +120,7 @@ class C19:
         return out
 
 
+from deepbase import DeepPart
+
 PROP = C19()
+PROP.parts = [PROP, DeepPart("C19", "resp", "resp", b"d8:intervali1e5:peersle3:zzz", b"e", "TrackerResp::from_bencode")]
